@@ -23,6 +23,8 @@ def run(ck):
     ck.check_theorems()
     from harness import gradops
     gradops.check_translation(ck)
+    from harness import agopops
+    agopops.check_translation(ck)
     rng = np.random.default_rng(ck.seed + 1414)
     kernels = [('l2', {}), ('l2_high_dim', {}), ('l1', {}), ('lpq', dict(norm_p=1.5)), ('sum_power_laplace', {})]
     cases = []; meta = {}
